@@ -24,18 +24,21 @@ TEXT = {
 }
 TEXT['C20'] = ("Kani checks the inductive step on the real LimitedCache bodies: from an arbitrary cache state satisfying the invariant (size <= capacity, distinct keys, stamps bounded and distinct) one symbolic get / add / get_or_set re-establishes the invariant and satisfies the operation's postcondition over the whole view, and a just-used entry survives the next eviction; histories of any length follow. Bounded in capacity (HashMap stand-in CAP = 4), so labelled bounded, not proved.",
          "Trusted: array-backed HashMap stand-in (finite map), insertion-sort stub for sort_unstable, no stamp-counter overflow. Capacities above 4 not covered.")
+TEXT['C01'] = ("Codec and addressing cores of versatiles and PMTiles: Kani proves (complete, fixed-size records) that the 66-byte versatiles header, the 33-byte block definition and the 127-byte PMTiles header are written at the published offsets and decode back to the same value, and the Hilbert tile-id mapping round-trips for every coordinate of every zoom level (one complete harness per zoom); Verus proves serialize_entries against the PMTiles column layout and the varint encoder against LEB128, and the tile-index <-> coordinate conversions of a block.",
+         "Trusted: byte-I/O stand-ins (cursor, endian integer codecs = byteorder), extraction rules. Not decided: end-to-end write/read through async I/O, MBTiles/tar/directory, BlockIndex/TileIndex loops.")
+TEXT['C16'] = ("Readers against the published layouts, independent of this code's writers: Verus proves find_tile against the PMTiles lookup rule (greatest entry id <= tile id, run lengths, leaf fall-through) for ALL sorted directories; Kani checks the directory decoder against an independent decoder written from the spec (bounded: <= 2 entries), the header decoders for all byte strings, partial block definitions (any sub-rectangle), and the Hilbert mapping against the specification's reference algorithm.",
+         "Trusted: byte-I/O stand-ins. Not decided: MBTiles, tar, directory, async reader descent.")
+TEXT['C19'] = ("Panic-freedom of the binary decoders under contract, for arbitrary bytes: Verus proves read_varint/read_svarint/read_pbf_key/get_sub_reader/get_pbf_sub_reader/read_pbf_packed_uint32/read_blob/read_string (no overflow, no out-of-bounds, bounded allocation, termination), find_tile, filter_bbox build validation and the converter lookup for any coordinate; Kani proves FileHeader::from_blob, BlockDefinition::from_blob, HeaderV3::deserialize for ALL byte strings and EntriesV3::from_blob (bounded).",
+         "Trusted: byte-I/O stand-ins, String::from_utf8. Not decided: JSON/CSV/VPL text parsers, vector-tile layer decoding, container opening around I/O.")
 NA = {
- 'C01': 'not built yet (planned: codec and addressing cores, DESIGN §3 C01)',
  'C07': 'std::path / OS path resolution semantics decide the property; no contract on repository code can express it (Kani probe through real std::path timed out) — DESIGN §5',
  'C10': 'not built yet',
  'C11': 'not built yet',
  'C12': 'quantifies over crash points of an I/O sequence inside async closures; no function contract reaches it — DESIGN §5',
  'C13': 'quantifies over thread schedules and the kernel file offset; Kani has no threads, code does not use Verus permission types — DESIGN §5',
  'C14': 'quantifies over completion orders of tokio tasks inside futures combinators — DESIGN §5',
- 'C16': 'not built yet',
  'C17': 'String/char/fmt/float-formatting code: Verus has no str theory, Kani single-char probe timed out — DESIGN §5',
  'C18': 'nom parser combinators: semantics lives in the library, not in function bodies that can carry contracts — DESIGN §5',
- 'C19': 'not built yet',
 }
 EXTRA_TEXT = {}
 try:
